@@ -15,7 +15,10 @@ def colJState (j : Json) : R State := do
          hasScripts := ← getBool j "has_scripts",
          retAddr := ← optBytesField j "ret_addr",
          threshold := ← getInt j "threshold",
-         refScriptSize := ← getInt j "ref_size" }
+         refScriptSize := ← getInt j "ref_size",
+         feeBuffer := (match j.getObjVal? "fee_buffer" with
+           | .ok v => (match v.getInt? with | .ok i => i | .error _ => 0)
+           | .error _ => 0) }
 
 def colJParams (j : Json) : R Params := do
   pure { fee := ← jFeeParams (← j.getObjVal? "params"), percent := ← getInt j "percent", cpb := ← getInt j "cpb",
